@@ -22,6 +22,8 @@ MsgsOf(c) == {c.start, c.end} \cup {c.body[k].m : k \in {j \in 1..Len(c.body) : 
 IsOneFrame(row, msgs) == \E v \in ValueSet, m \in msgs : RTrim(row) = RTrim(<<" ", v, " ">> \o m)
 \* no row of the terminal shows anything but nothing or one frame
 NoMixT(t, msgs) == \A k \in 1..Len(t.rows) : RTrim(t.rows[k]) = <<>> \/ IsOneFrame(t.rows[k], msgs)
-\* the last thing on the screen is a frame with the end message
-EndFrameT(t, end) == LET s == Screen(t) IN s # <<>> /\ IsOneFrame(s[Len(s)], {end})
+\* the last thing on the screen is a frame with the end message, and nothing has been drawn behind it: the row the
+\* cursor is left on (after the line end that closes the indicator's line) is blank and lies below that frame
+EndFrameT(t, end) == LET s == Screen(t) IN /\ s # <<>> /\ IsOneFrame(s[Len(s)], {end})
+                                           /\ t.r > Len(s) /\ RTrim(t.rows[t.r]) = <<>>
 =============================================================================
